@@ -507,13 +507,13 @@ def run(ck):
             if arg is None:
                 continue
             nscal += 1
-            bad = _not_verbatim(f, arg)
+            bad = _not_verbatim(f, arg, P)
             ck.ob('C15.verbatim', 'C15.verbatim/%s#%d' % (ptype, nscal), bad is None, f.loc(i),
                   'the encoder writes `%s` as it is%s' % (f.text(arg)[:60], '' if bad is None else ' — ' + bad))
     ck.floor('C15.verbatim', 'scalar writes in the payload encoders', nscal, 12)
 
 
-def _not_verbatim(f, root):
+def _not_verbatim(f, root, P=None, depth=0):
     from sa.paths import unique_init
     work = [root]
     seen = set()
@@ -554,6 +554,17 @@ def _not_verbatim(f, root):
             return 'conditional value'
         if k in ('IntegerLiteral', 'CXXBoolLiteralExpr'):
             continue
+        if k == 'CallExpr' and P is not None and depth < 3 and nd.get('callee') in P.by_q:
+            # a helper is fine when it only converts: single return whose value is its parameter through casts / .count()
+            g = P.by_q[nd['callee']][0]
+            rets = [j for j in g.walk() if g.nodes[j]['k'] == 'ReturnStmt' and g.kids(j)]
+            others = [j for j in g.walk() if g.nodes[j]['k'] in ('IfStmt', 'ForStmt', 'WhileStmt', 'SwitchStmt', 'CXXTryStmt')]
+            if len(rets) == 1 and not others:
+                inner = _not_verbatim(g, g.kids(rets[0])[0], P, depth + 1)
+                if inner is None:
+                    work += f.kids(i)[1:]
+                    continue
+                return '%s: %s' % (short_(nd['callee']), inner)
         if k in ('CallExpr', 'CXXOperatorCallExpr', 'BinaryOperator', 'UnaryOperator', 'CompoundAssignOperator'):
             return '%s changes the value before it is written' % (short_(nd.get('callee')) if nd.get('callee') else 'operator ' + str(nd.get('op')))
         return 'unrecognised expression %s' % k
